@@ -708,9 +708,9 @@ pub fn def() -> PropDef {
         ],
         subs: || {
             vec![
-                Box::new(Sub::<Case> { name: "box", cases: |t| t.scale(200_000, 25), strategy: case_strategy, exec: exec_box }),
-                Box::new(Sub::<Case> { name: "endpoint-leaf", cases: |t| t.scale(100_000, 20), strategy: endpoint_strategy, exec: exec_box }),
-                Box::new(Sub::<CatCase> { name: "catalog", cases: |t| t.scale(4_000, 20), strategy: cat_strategy, exec: exec_catalog }),
+                Box::new(Sub::<Case> { name: "box", cases: |t| t.scale(500_000, 10), strategy: case_strategy, exec: exec_box }),
+                Box::new(Sub::<Case> { name: "endpoint-leaf", cases: |t| t.scale(200_000, 10), strategy: endpoint_strategy, exec: exec_box }),
+                Box::new(Sub::<CatCase> { name: "catalog", cases: |t| t.scale(20_000, 10), strategy: cat_strategy, exec: exec_catalog }),
             ]
         },
     }
